@@ -60,6 +60,8 @@ func (s *Storer) getDataSet() *dataSet {
 }
 
 func (s *Storer) VerifyRunId(ids []string) (offset int64, err error) {
+	// -1 : none of the ids is cached (0 is a real replication offset)
+	offset = -1
 	for _, id := range ids {
 		if id == "" || id == "?" {
 			continue
@@ -78,7 +80,7 @@ func (s *Storer) VerifyRunId(ids []string) (offset int64, err error) {
 			return
 		}
 		newest := s.LatestOffset()
-		if newest == 0 {
+		if newest < 0 { // nothing cached under this id
 			continue
 		}
 		return newest, nil
